@@ -12,7 +12,8 @@
     successful run must be an acceptable answer of the plan.  (If already the UNLIMITED run is not acceptable the case belongs to another
     property: tagged `base:wrong`, not judged here.)
   Attribution to the listed findings of the unchanged tree:
-    C08-F1  the limited rows are an acceptable answer of the plan WITHOUT its fused LIMIT (fetch ignored on the spilled path) — exact mirror
+    C08-F1  (repaired by 6bbb4e5; no longer listed as open, so a recurrence is reported as a VIOLATION) the limited rows are an acceptable
+            answer of the plan WITHOUT its fused LIMIT (fetch ignored on the spilled path) — exact mirror
     C08-F2  signature: a sort key whose requested NULL placement differs from the merge's (ASC+NULLS FIRST / DESC+NULLS LAST) over a column
             holding NULLs; neutraliser: the same statement with those placements flipped gives the right answer under the same limit
     C08-F3  signature: a BOOLEAN sort key; neutraliser: the statement without the boolean keys is right under the same limit
